@@ -134,6 +134,9 @@ def collect_tasks(prop, tier):
         mod = importlib.import_module(modname)
         vs = mod.variants(W, tier=tier)
         deadline = getattr(mod, "DEADLINE", {}).get(tier, 300 if tier == "quick" else 1800)
+        # the per-variant budgets were measured on an idle machine; a variant that runs out of time is reported as out of reach
+        # (exit 2), so they are scaled to keep the verdict stable when all cores are busy (other checks running in parallel)
+        deadline = int(deadline * float(os.environ.get("PYVC_DEADLINE_FACTOR", "4")))
         for i, v in enumerate(vs):
             if prop in v.prop_ids:
                 tasks.append((modname, i, tier, deadline))
